@@ -8,6 +8,7 @@ Line protocol for the C15 model (one s-expression in, one out):
   (checktrace CNF N0 PROOFS)    -> T | F
   (checkproofs CNF PROOFS)      -> T | F             (CNF = the input; learned clauses are rebuilt)
   (tseitin FORM (n ...) (FORM ...)) -> CNF | none   (extra used names; the subterm numbering)
+  (tseitin-hyps FORM (n ...) (FORM ...)) -> (FORM ...) | none   (hypotheses of encode's theorem)
   (tseitin-unfixed FORM (FORM ...)) -> CNF | none   (naming x1..xn regardless of the formula)
 FORM = (atom n) | tt | ff | (not F) | (and F F) | (or F F) | (imp F F) | (iff F F)
 CNF = (CLAUSE ...), CLAUSE = ((name T|F) ...), ASG = ((name T|F) ...), PROOFS = ((id (i ...)) ...)
@@ -38,6 +39,16 @@ partial def formOf : Sexp → Option Form
   | .list [.atom "imp", a, b] => do some (.imp (← formOf a) (← formOf b))
   | .list [.atom "iff", a, b] => do some (.iff (← formOf a) (← formOf b))
   | _ => none
+
+def formTo : Form → Sexp
+  | .atom n => .list [.atom "atom", Sexp.ofNat n]
+  | .tt => .atom "tt"
+  | .ff => .atom "ff"
+  | .not a => .list [.atom "not", formTo a]
+  | .and a b => .list [.atom "and", formTo a, formTo b]
+  | .or a b => .list [.atom "or", formTo a, formTo b]
+  | .imp a b => .list [.atom "imp", formTo a, formTo b]
+  | .iff a b => .list [.atom "iff", formTo a, formTo b]
 
 def litTo (l : Lit) : Sexp := .list [Sexp.ofNat l.1, Sexp.ofBool l.2]
 def clauseTo (c : Clause) : Sexp := .list (c.map litTo)
@@ -81,6 +92,13 @@ def handle (line : String) : String :=
     | some f, some e, some o =>
       match tseitinOrd f e o with
       | some c => toString (cnfTo c)
+      | none => "none"
+    | _, _, _ => "bad-op"
+  | some (.list [.atom "tseitin-hyps", f, extra, order]) =>
+    match formOf f, natsOf extra, (do (← order.toList?).mapM formOf) with
+    | some f, some e, some o =>
+      match tseitinHyps f e o with
+      | some hs => toString (Sexp.list (hs.map formTo))
       | none => "none"
     | _, _, _ => "bad-op"
   | some (.list [.atom "tseitin-unfixed", f, order]) =>
